@@ -4,6 +4,7 @@ package main
 // the canonical text form the Coq runner (Corr/C05.v) produces.
 
 import (
+	"net"
 	"reflect"
 	"sort"
 	"strconv"
@@ -16,8 +17,8 @@ import (
 
 // types whose String()/parse() follow the presentation grammar of Model/Present.v
 // (playout); tied to the model by the "covered" case.
-var coveredTypes = []uint16{1, 2, 3, 4, 5, 6, 7, 8, 9, 12, 13, 14, 15, 16, 17, 18, 19, 20, 21, 23, 24, 25, 26, 27, 30, 31, 32, 33, 35, 36, 37, 39, 43, 44,
-	46, 47, 48, 49, 50, 51, 52, 53, 56, 57, 58, 59, 60, 61, 62, 63, 99, 100, 101, 102, 104, 105, 106, 107, 108, 109, 256, 257, 258, 261, 32768, 32769}
+var coveredTypes = []uint16{1, 2, 3, 4, 5, 6, 7, 8, 9, 12, 13, 14, 15, 16, 17, 18, 19, 20, 21, 23, 24, 25, 26, 27, 28, 30, 31, 32, 33, 35, 36, 37, 39, 43, 44,
+	45, 46, 47, 48, 49, 50, 51, 52, 53, 55, 56, 57, 58, 59, 60, 61, 62, 63, 99, 100, 101, 102, 104, 105, 106, 107, 108, 109, 256, 257, 258, 260, 261, 32768, 32769}
 
 func isCovered(t uint16) bool {
 	for _, c := range coveredTypes {
@@ -182,6 +183,17 @@ func pvals(rr dns.RR, now int64) []string {
 		return rrsig(x)
 	case *dns.SIG:
 		return rrsig(&x.RRSIG)
+	case *dns.AAAA:
+		// net.IP seen through To16(): nil is empty, four octets are the IPv4-mapped form
+		return []string{"a:" + Hx(x.AAAA.To16())}
+	case *dns.IPSECKEY:
+		return []string{u(uint64(x.Precedence)), "g:" + Itoa(int(x.GatewayType)) + ":" + Itoa(int(x.Algorithm)) + ":" + Hx(x.GatewayAddr.To16()) + ":" + Hs(x.GatewayHost),
+			"w:" + Hs(x.PublicKey)}
+	case *dns.AMTRELAY:
+		return []string{u(uint64(x.Precedence)), "g:" + Itoa(int(x.GatewayType)) + ":0:" + Hx(x.GatewayAddr.To16()) + ":" + Hs(x.GatewayHost)}
+	case *dns.HIP:
+		return []string{u(uint64(x.PublicKeyAlgorithm)), sized(x.HitLength, x.Hit), "z:" + Itoa(int(x.PublicKeyLength)) + ":" + Hs(x.PublicKey),
+			"s:" + hexList(x.RendezvousServers)}
 	}
 	walk(reflect.ValueOf(rr).Elem())
 	return out
@@ -617,6 +629,27 @@ func emitRecords(r *Rng, tier string, types []uint16) (printed []string) {
 			}
 		}
 	}
+	// B05b: addresses the generator rarely draws (IPv4-mapped, zero runs), as struct values
+	for i, ip := range []string{"::ffff:1.2.3.4", "::ffff:255.0.10.100", "::", "::1", "1::", "1:0:0:2:0:0:0:3", "1:0:0:0:2:0:0:0", "0:0:1:0:0:1:0:0", "1:2:3:4:5:6:7:8", "1:2:3:4:5:6:7:0",
+		"0:2:3:4:5:6:7:8", "1:0:3:4:5:6:7:8", "abcd:ef01:2345:6789:0:0:fff:ff", "::ffff:0:0", "0:0:0:0:0:ffff::", "64:ff9b::1.2.3.4", "fe80::"} {
+		addr := net.ParseIP(ip)
+		hd := func(t uint16) dns.RR_Header {
+			return dns.RR_Header{Name: "b.example.", Rrtype: t, Class: 1, Ttl: uint32(i)}
+		}
+		gt := uint8(2)
+		if addr.To4() != nil && i%2 == 0 {
+			gt = 1
+		}
+		for _, rr := range []dns.RR{&dns.AAAA{Hdr: hd(dns.TypeAAAA), AAAA: addr},
+			&dns.IPSECKEY{Hdr: hd(dns.TypeIPSECKEY), Precedence: uint8(i), GatewayType: gt, Algorithm: 2, GatewayAddr: addr, PublicKey: "AQNR"},
+			&dns.AMTRELAY{Hdr: hd(dns.TypeAMTRELAY), Precedence: uint8(i), GatewayType: gt | uint8(i%2)<<7, GatewayAddr: addr}} {
+			text := rr.String()
+			if _, rest, ok := splitHeader(text); ok {
+				Emit("present", append([]string{Itoa(int(rr.Header().Rrtype))}, pvals(rr, 0)...), Hs(rest))
+				Emit("rr", []string{Hs(text + "\n")}, showRRAs(text+"\n", "fields"))
+			}
+		}
+	}
 	// unknown types: native RFC 3597 text
 	for i := 0; i < 12; i++ {
 		t := []uint16{65280, 999, 0, 65535, 11, 22}[i%6]
@@ -690,6 +723,31 @@ func emitRecords(r *Rng, tier string, types []uint16) (printed []string) {
 		{"x. 5 IN NID 10 0014:4fff:ff20:ee64\n", "fields"}, {"x. 5 IN NID 10 0014:4FFF:FF20:EE64\n", "fields"}, {"x. 5 IN NID 10 0014:4fff:ff20:ee6\n", "fields"}, {"x. 5 IN NID 10 0014:4fff:ff20:ee64ab\n", "fields"},
 		{"x. 5 IN NID 10 0014x4fff:ff20yee64\n", "fields"}, {"x. 5 IN NID 10 0014x4fffxff20xee64\n", "fields"}, {"x. 5 IN NID 10 0014:4fff:ff20:eg64\n", "fields"}, {"x. 5 IN NID 65536 0014:4fff:ff20:ee64\n", "fields"},
 		{"x. 5 IN NID 10\n", "fields"}, {"x. 5 IN L64 10 2001:0DB8:1140:1000\n", "fields"}, {"x. 5 IN L64 10 2001:0db8:1140:1000\n", "fields"}, {"x. 5 IN L64 10 2001:0db8:1140:1000 x\n", "fields"},
+		// B05b: AAAA, IPSECKEY, AMTRELAY
+		{"x. 5 IN AAAA 2001:db8::1\n", "fields"}, {"x. 5 IN AAAA ::\n", "fields"}, {"x. 5 IN AAAA ::1\n", "fields"}, {"x. 5 IN AAAA 1::\n", "fields"}, {"x. 5 IN AAAA 1:2:3:4:5:6:7:8\n", "fields"}, {"x. 5 IN AAAA 1:2:3:4:5:6:7::\n", "fields"},
+		{"x. 5 IN AAAA ::2:3:4:5:6:7:8\n", "fields"}, {"x. 5 IN AAAA 1:2:3:4:5:6:7:8::\n", "fields"}, {"x. 5 IN AAAA 1::2:3:4:5:6:7:8\n", "fields"}, {"x. 5 IN AAAA ::ffff:1.2.3.4\n", "fields"}, {"x. 5 IN AAAA ::FFFF:1.2.3.4\n", "fields"}, {"x. 5 IN AAAA 1:2:3:4:5:6:1.2.3.4\n", "fields"},
+		{"x. 5 IN AAAA 1:2:3:4:5:1.2.3.4\n", "fields"}, {"x. 5 IN AAAA 1::1.2.3.4\n", "fields"}, {"x. 5 IN AAAA ::1.2.3.4\n", "fields"}, {"x. 5 IN AAAA 1.2.3.4\n", "fields"}, {"x. 5 IN AAAA 1.2.3.4::\n", "fields"}, {"x. 5 IN AAAA 12345::\n", "fields"},
+		{"x. 5 IN AAAA 0001:0002::\n", "fields"}, {"x. 5 IN AAAA 00001::\n", "fields"}, {"x. 5 IN AAAA 1:::2\n", "fields"}, {"x. 5 IN AAAA 1:2\n", "fields"}, {"x. 5 IN AAAA :1:2:3:4:5:6:7:8\n", "fields"}, {"x. 5 IN AAAA 1:2:3:4:5:6:7:8:9\n", "fields"},
+		{"x. 5 IN AAAA 1:2:3:4:5:6:7:\n", "fields"}, {"x. 5 IN AAAA ABCD:Ef01::\n", "fields"}, {"x. 5 IN AAAA g::\n", "fields"}, {"x. 5 IN AAAA fe80::1%eth0\n", "fields"}, {"x. 5 IN AAAA fe80::1%\n", "fields"}, {"x. 5 IN AAAA ::1.2.3\n", "fields"},
+		{"x. 5 IN AAAA ::1.2.3.04\n", "fields"}, {"x. 5 IN AAAA ::1.2.3.256\n", "fields"}, {"x. 5 IN AAAA 1::2::3\n", "fields"}, {"x. 5 IN AAAA ::1 x\n", "fields"}, {"x. 5 IN AAAA ::1 \n", "fields"}, {"x. 5 IN AAAA\n", "none"},
+		{"x. 5 IN AAAA 1:0:0:2:0:0:0:3\n", "fields"}, {"x. 5 IN AAAA 1:0:0:0:2:0:0:0\n", "fields"}, {"x. 5 IN AAAA 0:0:1:0:0:1:0:0\n", "fields"}, {"x. 5 IN AAAA ::ffff:0:0\n", "fields"}, {"x. 5 IN AAAA 64:ff9b::1.2.3.4\n", "fields"}, {"x. 5 IN AAAA ::1.2.3.4.5\n", "fields"},
+		{"x. 5 IN AAAA 1:2:3:4:5:6:7:1.2.3.4\n", "fields"}, {"x. 5 IN AAAA \"::1\"\n", "fields"}, {"x. 5 IN IPSECKEY 10 0 2 . AQNRU3mG7TVTO2BkR47usntb102uFJtugbo6BSGvgqt4AQ==\n", "fields"}, {"x. 5 IN IPSECKEY 10 1 2 192.0.2.38 AQNR U3mG\n", "fields"}, {"x. 5 IN IPSECKEY 10 2 2 2001:db8:0:8002::2000:1 AQNR\n", "fields"}, {"x. 5 IN IPSECKEY 10 3 2 mygateway.example.com. AQNR\n", "fields"},
+		{"x. 5 IN IPSECKEY 10 3 2 rel AQNR\n", "fields"}, {"x. 5 IN IPSECKEY 10 3 2 @ AQNR\n", "fields"}, {"x. 5 IN IPSECKEY 10 0 2 x AQNR\n", "fields"}, {"x. 5 IN IPSECKEY 10 1 2 2001:db8::1 AQNR\n", "fields"}, {"x. 5 IN IPSECKEY 10 2 2 192.0.2.38 AQNR\n", "fields"}, {"x. 5 IN IPSECKEY 10 1 2 ::ffff:192.0.2.38 AQNR\n", "fields"},
+		{"x. 5 IN IPSECKEY 10 2 2 ::ffff:192.0.2.38 AQNR\n", "fields"}, {"x. 5 IN IPSECKEY 10 2 2 ::ffff:c000:226 AQNR\n", "fields"}, {"x. 5 IN IPSECKEY 10 4 2 anything AQNR\n", "fields"}, {"x. 5 IN IPSECKEY 10 255 2 . AQNR\n", "fields"}, {"x. 5 IN IPSECKEY 10 3 2 1.2.3.4 AQNR\n", "fields"}, {"x. 5 IN IPSECKEY 10 1 2 1.2.3 AQNR\n", "fields"},
+		{"x. 5 IN IPSECKEY 256 0 2 . AQNR\n", "fields"}, {"x. 5 IN IPSECKEY 10 256 2 . AQNR\n", "fields"}, {"x. 5 IN IPSECKEY 10 0 256 . AQNR\n", "fields"}, {"x. 5 IN IPSECKEY 10 0 2 .\n", "fields"}, {"x. 5 IN IPSECKEY 10 0 2 . \n", "fields"}, {"x. 5 IN IPSECKEY 10 0 2\n", "fields"},
+		{"x. 5 IN IPSECKEY 10 0\n", "fields"}, {"x. 5 IN IPSECKEY 10 3 2 a..b AQNR\n", "fields"}, {"x. 5 IN IPSECKEY 10 0 2 \".\" AQNR\n", "fields"}, {"x. 5 IN IPSECKEY 10  0 2 . AQNR\n", "fields"}, {"x. 5 IN AMTRELAY 10 0 0 .\n", "fields"}, {"x. 5 IN AMTRELAY 10 1 0 .\n", "fields"},
+		{"x. 5 IN AMTRELAY 10 0 1 203.0.113.15\n", "fields"}, {"x. 5 IN AMTRELAY 10 1 2 2001:db8::15\n", "fields"}, {"x. 5 IN AMTRELAY 10 0 3 amtrelays.example.com.\n", "fields"}, {"x. 5 IN AMTRELAY 10 1 3 rel\n", "fields"}, {"x. 5 IN AMTRELAY 10 2 0 .\n", "fields"}, {"x. 5 IN AMTRELAY 10 x 0 .\n", "fields"},
+		{"x. 5 IN AMTRELAY 10 0 128 .\n", "fields"}, {"x. 5 IN AMTRELAY 10 1 128 .\n", "fields"}, {"x. 5 IN AMTRELAY 10 0 129 1.2.3.4\n", "fields"}, {"x. 5 IN AMTRELAY 10 1 255 .\n", "fields"}, {"x. 5 IN AMTRELAY 10 0 256 .\n", "fields"}, {"x. 5 IN AMTRELAY 10 0 4 zzz\n", "fields"},
+		{"x. 5 IN AMTRELAY 10 0 0 x\n", "fields"}, {"x. 5 IN AMTRELAY 10 0 1 ::1\n", "fields"}, {"x. 5 IN AMTRELAY 10 0 2 1.2.3.4\n", "fields"}, {"x. 5 IN AMTRELAY 10 0 1 ::ffff:1.2.3.4\n", "fields"}, {"x. 5 IN AMTRELAY 10 0 0 . x\n", "fields"}, {"x. 5 IN AMTRELAY 10 0 0 . \n", "fields"},
+		{"x. 5 IN AMTRELAY 10 0 0\n", "fields"}, {"x. 5 IN AMTRELAY 10 0\n", "fields"}, {"x. 5 IN AMTRELAY 256 0 0 .\n", "fields"}, {"x. 5 IN AMTRELAY 10 00 0 .\n", "fields"}, {"x. 5 IN AMTRELAY 10 01 0 .\n", "fields"},
+		// B05b: HIP
+		{"x. 5 IN HIP 2 200100107B1A74DF365639CC39F1D578 AwEAAbdx rvs.example.com.\n", "fields"}, {"x. 5 IN HIP 2 2001 AwEAAbdx\n", "fields"}, {"x. 5 IN HIP 2 2001 AwEAAbdx \n", "fields"},
+		{"x. 5 IN HIP 2 2001 AwEAAbdx a b. @ c.d\n", "fields"}, {"x. 5 IN HIP 2 2001 AwEAAbd= a.\n", "fields"}, {"x. 5 IN HIP 2 2001 AwEAAb== a.\n", "fields"}, {"x. 5 IN HIP 2 2001 AwEAA=== a.\n", "fields"},
+		{"x. 5 IN HIP 2 2001 AwEAAbd a.\n", "fields"}, {"x. 5 IN HIP 2 2001 AwEA=bdx a.\n", "fields"}, {"x. 5 IN HIP 2 2001 AwEAAb==AAAA a.\n", "fields"}, {"x. 5 IN HIP 2 2001 Aw_A a.\n", "fields"},
+		{"x. 5 IN HIP 2 2001 Aw-A a.\n", "fields"}, {"x. 5 IN HIP 2 2001 = a.\n", "fields"}, {"x. 5 IN HIP 2 2001 A=== a.\n", "fields"}, {"x. 5 IN HIP 2 2001 AA=A a.\n", "fields"}, {"x. 5 IN HIP 2 2001 ++// a.\n", "fields"},
+		{"x. 5 IN HIP 2 2001\n", "fields"}, {"x. 5 IN HIP 2\n", "fields"}, {"x. 5 IN HIP 256 2001 AwEA\n", "fields"}, {"x. 5 IN HIP 2 xyz AwEA\n", "fields"}, {"x. 5 IN HIP 2 2 AwEA a..b\n", "fields"},
+		{"x. 5 IN HIP 2 2001 AwEA \"a.\"\n", "fields"}, {"x. 5 IN HIP 2 \"2001\" AwEA\n", "fields"}, {"x. 5 IN HIP 2 " + strings.Repeat("ab", 256) + " AwEA\n", "fields"}, {"x. 5 IN HIP 2 " + strings.Repeat("ab", 255) + "a AwEA\n", "fields"},
+		{"x. 5 IN HIP 2  2001 AwEA\n", "fields"}, {"x. 5 IN HIP 2 2001 AwEA\\010AwEA\n", "fields"}, {"x. 5 IN HIP 2 2001 AwEA\\\rAwEA\n", "fields"},
 		{"x. 5 IN RRSIG A 8 2 3600 1 0 1 e.\n", "fields"}, {"x. 5 IN RRSIG A 256 2 3600 1 0 1 e. AAAA\n", "fields"}, {"x. 5 IN SIG A 8 2 3600 20110403154150 20110303154150 12345 example. AAAA\n", "fields"},
 	} {
 		Emit("rr", []string{Hs(c.line)}, showRRAs(c.line, c.form))
